@@ -5,14 +5,22 @@ import HdwModel.Model.Basic
 
 namespace Hdw.Rlp
 
+/-- `leading_zeros()` of a `bits`-bit unsigned integer -/
+def leadingZeros (bits v : Nat) : Nat := bits - (if v = 0 then 0 else v.log2 + 1)
+
+/-- `v.to_be_bytes()[leading_zeros / 8 ..]` for a `w`-byte integer -/
+def beStripped (w v : Nat) : Bytes := (beFixed w v).drop (leadingZeros (8 * w) v / 8)
+
 /-- `len(len, offset)`: short form below 56, else length-of-length form.
-`len.to_be_bytes()[leading_zeros/8..]` is the minimal big-endian representation `beBytes`.
+`len.to_be_bytes()[leading_zeros/8..]` on the 8-byte `usize` is modelled literally as
+`beStripped 8 l` (it equals the minimal big-endian representation `beBytes l` for `l < 2^64`:
+`beStripped_eq_beBytes` in `Lemmas/Rlp.lean`).
 The `u8` additions are checked: a sum above 255 is a panic in a checked build. -/
 def len (l : Nat) (off : Nat) : Res Bytes :=
   if l < 56 then
     if l + off < 256 then .ok [UInt8.ofNat (l + off)] else .panic "rlp.rs:41 u8 add overflow"
   else
-    let bl := beBytes l
+    let bl := beStripped 8 l
     if bl.length + off + 55 < 256 then .ok (UInt8.ofNat (bl.length + off + 55) :: bl)
     else .panic "rlp.rs:48 u8 add overflow"
 
@@ -22,8 +30,9 @@ def bytes (b : Bytes) : Res Bytes :=
   | [x] => if x < 0x80 then .ok [x] else (len 1 0x80).bind fun h => .ok (h ++ [x])
   | _ => (len b.length 0x80).bind fun h => .ok (h ++ b)
 
-/-- `uint(value)`: big-endian bytes with `leading_zeros / 8` bytes stripped, then `bytes` -/
-def uint (v : Nat) : Res Bytes := bytes (beBytes v)
+/-- `uint(value)`: the 32 big-endian bytes of the `U256` with `leading_zeros / 8` bytes stripped
+(`beStripped 32 v`, equal to `beBytes v` for `v < 2^256` by `beStripped_eq_beBytes`), then `bytes` -/
+def uint (v : Nat) : Res Bytes := bytes (beStripped 32 v)
 
 /-- `list(items)`: header over the total length, then the (already encoded) items -/
 def list (items : List Bytes) : Res Bytes :=
